@@ -161,6 +161,7 @@ class SimRaw(io.RawIOBase):
         self._fired = fired if fired is not None else {}
         self._calls = 0
         self._eintr_done = set()
+        self._once_done = False
         self.name = name
         self.reads = 0
         self.max_pos = 0
@@ -211,6 +212,15 @@ class SimRaw(io.RawIOBase):
                 self._bump("eio")
                 raise OSError(errno.EIO, "simulated EIO at byte %d" % eio)
             n = min(n, eio - self._pos)
+        once = dev.get("eio_once_at")
+        if once is not None and not self._once_done:
+            # transient fault: the device fails ONE read at this offset (after delivering everything before
+            # it) and works again afterwards
+            if self._pos >= once:
+                self._once_done = True
+                self._bump("eio_once")
+                raise OSError(errno.EIO, "simulated transient EIO at byte %d" % once)
+            n = min(n, once - self._pos)
         chunk = self._data[self._pos:self._pos + n]
         b[:len(chunk)] = chunk
         self._pos += len(chunk)
